@@ -26,10 +26,15 @@ def run(ctx):
         S, R, L = gen.random_kripke_data(rng, 6)
         F = [[s for s in S if rng.random() < 0.4] for _ in range(rng.randint(0, 3))]
         fs_cases.append(((S, R, {}), F))
+    # constraints given with elements that are not states (only their states matter), padded up to and beyond |S|
+    for _ in range(400 if thorough else 150):
+        S, R, L = gen.random_kripke_data(rng, 6)
+        F = [[s for s in S if rng.random() < 0.4] + [('#nostate', i) for i in range(rng.randint(1, len(S) + 2))] for _ in range(rng.randint(1, 2))]
+        fs_cases.append(((S, R, {}), F))
     driver.run_cases(
         ctx, 'get_fair_states', 'vf.rtc.fair_rtc', 'check_fair_states_case', fs_cases,
         rule='every total relation on <=2 states and %s on 3 states x every list F of <=2 state subsets; seeded random structures <=6 states x '
-             '<=3 random subsets; structures built with initial states none/first/last/all (fixed per structure, gen.initial_states); reference = Emerson-Lei fixpoint (vf/spec/sem.py fair_states); non-trivial = non-empty F; distinct by literal'
+             '<=3 random subsets, also padded with up to |S|+2 elements that are not states; structures built with initial states none/first/last/all (fixed per structure, gen.initial_states); reference = Emerson-Lei fixpoint (vf/spec/sem.py fair_states); non-trivial = non-empty F; distinct by literal'
              % ('all' if thorough else '120 sampled'),
         nontrivial='fair_states_nontrivial')
     ctl = gen.levels(gen.ctl_ops(), 2, cap=300, rng=rng)
